@@ -38,6 +38,11 @@ fn check_flips(m: &Model, st: &ProcessState, l: &mut Local) {
         l.outcome("flips:platform-excluded");
         return;
     }
+    if m.null_base && info.memory_access_list.is_some() && !flips.is_empty() {
+        // by construction the memory operand's base register is null: a null pointer plus offset
+        fail(l, "reported-for-null-pointer-plus-offset", format!("{} candidates although the crashing instruction dereferences a null base register plus an offset", flips.len()));
+        return;
+    }
     if let Some(AdjustedAddress::NullPointerWithOffset(_)) = &info.adjusted_address {
         if !flips.is_empty() {
             fail(l, "reported-for-null-pointer-plus-offset", format!("{} candidates although the access was recognised as null pointer + offset", flips.len()));
@@ -53,8 +58,9 @@ fn check_flips(m: &Model, st: &ProcessState, l: &mut Local) {
     };
     if let Some(AdjustedAddress::NonCanonical(v)) = &info.adjusted_address {
         // the non-canonical address can only be the value the generator put in rsp
-        if v.0 != x.ctx_sp {
-            fail(l, "non-canonical-address", format!("adjusted non-canonical address {:#x}, the crashing instruction dereferences rsp = {:#x}", v.0, x.ctx_sp));
+        let ea = m.effective_address.unwrap_or(x.ctx_sp);
+        if v.0 != ea {
+            fail(l, "non-canonical-address", format!("adjusted non-canonical address {:#x}, the crashing instruction dereferences {:#x}", v.0, ea));
         }
     }
     let frame0 = st.requesting_thread.and_then(|i| st.threads[i].frames.first());
@@ -205,6 +211,24 @@ fn main() {
         ));
         // instruction kinds: read / write / read-modify-write / two accesses / implicit stack accesses / none, with
         // the registers at 0 (null base) or at a mapped address
+        // a null base register with an index that makes the sum non-canonical, next to the same with a real base
+        let g9 = gen_null_base(ctx.tier);
+        let g10 = g9.clone();
+        def.spaces.push(Space::new(
+            "null-base-non-canonical-sum",
+            g9.len,
+            move |idx, l| {
+                let m = (g10.model)(idx);
+                l.eval();
+                match process_model(&m) {
+                    Proc::Ok(st) => check_flips(&m, &st, l),
+                    Proc::ProcessErr(e) => l.violation("c19:process:error", format!("processing a well-formed generated dump failed: {e}"), json!({"model": m.summary()})),
+                    Proc::ReadErr(e) => panic!("c19 generator produced an unreadable dump: {e} ({m:?})"),
+                    Proc::Panic(p) => l.panic_violation(&p, json!({"model": m.summary()})),
+                }
+            },
+            g9.describe(),
+        ));
         let g7 = gen_access_kinds(ctx.tier);
         let g8 = g7.clone();
         def.spaces.push(Space::new(
